@@ -5,6 +5,7 @@ import ast
 
 from sa import astutil as A
 from sa import cfg as C
+from sa import dataflow as _D
 from sa import surface as S
 from sa.index import AnalysisError
 
@@ -50,6 +51,56 @@ def _raw_of_call(idx, func, call):
         and call.args[0].id == 'self'):
     return f'{kind}.{parts[1]}'
   return None
+
+
+def is_missing_cmp(e, names=None):
+  """`MISSING_VALUE == x` / `x == MISSING_VALUE` (x optionally restricted)."""
+  if not (isinstance(e, ast.Compare) and len(e.ops) == 1 and isinstance(e.ops[0], ast.Eq)):
+    return False
+  l, r = A.unparse(e.left), A.unparse(e.comparators[0])
+  for a, b in ((l, r), (r, l)):
+    if a.endswith('MISSING_VALUE') and (names is None or b in names):
+      return True
+  return False
+
+
+def sweeps_only_placeholders(idx, f):
+  """Every raw list.__delitem__ of f deletes an index taken from a collection
+  that only ever receives indices whose item compared equal to the MISSING
+  marker (loop + guarded append, or a filtering comprehension)."""
+  g = C.cfg_of(f.node)
+  dels = [c for c in A.calls_in(f.node) if _raw_of_call(idx, f, c) == 'list.__delitem__']
+  if not dels:
+    return False
+  for c in dels:
+    ia = c.args[-1]
+    if not isinstance(ia, ast.Name):
+      return False
+    loops = [n for n in ast.walk(f.node) if isinstance(n, ast.For) and any(x is c for x in ast.walk(n))
+             and ia.id in A.assigned_names(n.target)]
+    if not loops:
+      return False
+    it = loops[-1].iter
+    while isinstance(it, ast.Call) and (A.call_name(it) or '') in ('reversed', 'sorted', 'list', 'tuple') and it.args:
+      it = it.args[0]
+    if not isinstance(it, ast.Name):
+      return False
+    coll = it.id
+    for _, v in _D.defs_of(f.node, coll):
+      if isinstance(v, ast.List) and not v.elts:
+        continue
+      if isinstance(v, ast.ListComp) and any(is_missing_cmp(i) for gen in v.generators for i in gen.ifs):
+        continue
+      return False
+    # appends happen only under a MISSING comparison
+    tests = [n for n in g.nodes if n.kind == 'test' and is_missing_cmp(n.ast)]
+    blocked = {(n.id, m.id, l) for n in tests for m, l in n.succ if l == 'true'}
+    seen, _ = g.reach(g.entry, blocked_edges=blocked, follow_exc=False)
+    for n in g.nodes:
+      if n.ast is not None and n.id in seen and any(
+          (A.call_name(x) or '') in (coll + '.append', coll + '.extend', coll + '.insert') for x in n.calls()):
+        return False
+  return True
 
 
 def make_sink_finder(idx, accessor: bool = False):
